@@ -131,5 +131,6 @@ func scalePrograms() []*gen.Program {
 			out = append(out, gen.Single(right))
 		}
 	}
+	out = append(out, widePrograms(scaleThorough)...)
 	return out
 }
